@@ -13,7 +13,9 @@
 //	                    filter panics); '-' = every filter goes on
 //	           pre    = '-' or f c r : a HandleBeforeLocation filter ends the request with Finish / Close / Redirect;
 //	                    step i<k> then runs the REAL ServeHTTP (it returns before any backend is selected)
-//	schedule i<k> / f<k> steps joined by '.' (clusterInvoke of request k / FinishReq of request k)
+//	schedule i<k> / f<k> steps joined by '.' (clusterInvoke of request k / FinishReq of request k), and
+//	         u<b> / d<b> = health-check events on backend #b between them: u = what the checker does when the backend
+//	         recovers (SetRestart(true); SetAvail(true)), d = what UpdateStatus does (SetAvail(false))
 //
 // and it is run against the REAL bfe_server.clusterInvoke / FinishReq with a real bal_gslb.BalanceGslb,
 // a scripted fake RoundTripper and a scripted fake HandleForward callback (hook bfe_server/zz_verif_c07.go).
@@ -72,8 +74,9 @@ const FinChars = "gfrpc!"
 const MaxFinFilters = 4
 
 type Step struct {
-	Fin bool
-	K   int
+	Fin  bool
+	K    int
+	Flip byte // 0, or 'u' / 'd': the health check brings backend #K back / takes it out (K = index over all backends)
 }
 
 type Scenario struct {
@@ -147,7 +150,9 @@ func (s *Scenario) String() string {
 		if i > 0 {
 			b.WriteByte('.')
 		}
-		if st.Fin {
+		if st.Flip != 0 {
+			b.WriteByte(st.Flip)
+		} else if st.Fin {
 			b.WriteByte('f')
 		} else {
 			b.WriteByte('i')
@@ -270,11 +275,21 @@ func Parse(op string) (*Scenario, bool) {
 	}
 	// schedule
 	for _, f := range strings.Split(secs[3], ".") {
-		if len(f) < 2 || (f[0] != 'i' && f[0] != 'f') {
+		if len(f) < 2 || !strings.Contains("ifud", f[:1]) {
 			return nil, false
 		}
 		k, err := strconv.Atoi(f[1:])
-		if err != nil || k < 0 || k >= len(s.Reqs) {
+		if err != nil || k < 0 {
+			return nil, false
+		}
+		if f[0] == 'u' || f[0] == 'd' {
+			if k > 63 {
+				return nil, false
+			}
+			s.Sched = append(s.Sched, Step{K: k, Flip: f[0]})
+			continue
+		}
+		if k >= len(s.Reqs) {
 			return nil, false
 		}
 		s.Sched = append(s.Sched, Step{Fin: f[0] == 'f', K: k})
@@ -630,6 +645,19 @@ func Exec(op string) string {
 	}
 	var out []string
 	for _, st := range sc.Sched {
+		if st.Flip != 0 {
+			// a health-check event on the real BfeBackend while requests may be in flight on it
+			if st.K < len(r.all) {
+				if st.Flip == 'u' {
+					r.all[st.K].SetRestart(true)
+					r.all[st.K].SetAvail(true)
+				} else {
+					r.all[st.K].SetAvail(false)
+				}
+			}
+			out = append(out, fmt.Sprintf("%c%d:cn=%s", st.Flip, st.K, r.conn()))
+			continue
+		}
 		c := states[st.K]
 		if !st.Fin {
 			if c.invoked {
